@@ -349,6 +349,31 @@ def hrnp_cases():
     return cat, out
 
 
+def w_hrnp_packet_numbers(task):
+    """one DATA packet x every 16-bit packet number: every value of the low sum word, i.e. every carry situation"""
+    lo, hi = task
+    cat = hrnp_catalogue()
+    base = {n: HRNP_HEADER_ALPHA[n][0] for n in HRNP_HEADER_ALPHA}
+    acc = Acc()
+    for pn in range(lo, hi):
+        case = {"kind": "hrnp", "packet": cat[10][0], "packet_number": pn}
+        try:
+            raw = hrnp_build(cat, 10, dict(base, packet_number=pn)).as_bytes()
+            back = HRNP.from_bytes(raw)
+            if not back.checksum_correct:
+                acc.violation("hrnp:library_encoded_pdu_reports_check_failed", {**case, "bytes": raw.hex()},
+                              "HRNP packet serialised by the library parses back with checksum_correct False")
+            if int.from_bytes(raw[10:12], "big") != ones_complement_checksum(raw):
+                acc.violation("hrnp:check_value_differs_from_reference", {**case, "bytes": raw.hex()},
+                              "emitted checksum differs from the harness's ones-complement sum over the emitted bytes")
+            if back.packet_number != pn:
+                acc.violation("hrnp:packet_number_not_preserved", case)
+        except Exception as e:
+            acc.violation("hrnp:exception:" + exc_sig(e), case, repr(e))
+        acc.case(nontrivial=True, calls=3, outcome=("hrnp", "ok"))
+    return acc
+
+
 def ones_complement_checksum(b: bytes) -> int:
     """harness reference: 16-bit ones-complement of the ones-complement sum of big-endian words, checksum field excluded"""
     body = b[:10] + b[12:]
@@ -421,7 +446,7 @@ for _rn, (_cls, _T, _L) in c03.RATES.items():
 
 # which field's bits may be re-chosen to reach a wanted check value
 FREE_FIELD = {"pi_header": "data", "slc_activity_update": "ts2_address", "slc_null": None}
-CHECK_TARGETS_QUICK = ["plain", "first_only", "zero"]
+CHECK_TARGETS_QUICK = ["plain", "first_only"]
 CHECK_TARGETS_THOROUGH = ["plain", "first_only", "last_only", "zero", "first_and_last", "weight3", "all_ones"]
 
 
@@ -746,7 +771,8 @@ def run(only=None):
         s = rep.sub("encoded_then_parsed_ok",
                     "slot type: all 16x16 (colour code, data type) pairs incl. the 13 members of DataTypes; EMB: all 128 (cc, PI, LCSS); "
                     "every field assignment of the C03 space of the 14 CRC-protected kinds (5 data headers, PI header, 2 short LC, "
-                    "3 rates x {confirmed, confirmed last}); HRNP: 25 packets x header-field alphabets; each a distinct PDU")
+                    "3 rates x {confirmed, confirmed last}); HRNP: 25 packets x header-field alphabets, and one DATA packet x all 2^16 "
+                    "packet numbers (every carry situation of the ones-complement sum); each a distinct PDU")
         decl = 0
         for cc in range(16):
             for dt in DataTypes:
@@ -812,6 +838,10 @@ def run(only=None):
             s.case(nontrivial=True, calls=3, outcome=("hrnp", "ok"))
             decl += 1
         sizes["hrnp"] = len(hc)
+        for acc in par.pmap(w_hrnp_packet_numbers, par.chunks(1 << 16, 64), nw):
+            s.merge(acc)
+        sizes["hrnp_all_packet_numbers"] = 1 << 16
+        decl += 1 << 16
         s.declared = decl
         s.extra["cases_per_kind"] = sizes
         s.done()
@@ -823,11 +853,11 @@ def run(only=None):
     if want("corruption_data_header"):
         corruption_family(rep, nw, "corruption_data_header",
                           ["dh_confirmed", "dh_unconfirmed", "dh_response", "dh_short_data_defined", "dh_udt"], labels,
-                          (lambda l: 16 if l in ("plain", "first_only") else 10) if thorough else (lambda l: 9), k,
+                          (lambda l: 16 if l == "first_only" else 10) if thorough else (lambda l: 9), k,
                           "CRC-CCITT, 96 bits.")
     if want("corruption_pi_header"):
         corruption_family(rep, nw, "corruption_pi_header", ["pi_header"], labels,
-                          (lambda l: 16 if l in ("plain", "first_only") else 10) if thorough else (lambda l: 10), k,
+                          (lambda l: 16 if l == "first_only" else 10) if thorough else (lambda l: 10), k,
                           "CRC-CCITT, 96 bits.")
     if want("corruption_short_lc"):
         corruption_family(rep, nw, "corruption_short_lc", ["slc_null", "slc_activity_update"], CHECK_TARGETS_THOROUGH,
@@ -879,10 +909,10 @@ def run(only=None):
 
     rep.bounds = {
         "fec_words": "all 2^20 slot-type and all 2^16 EMB words",
-        "encoded": "C03 field spaces of the 14 protected kinds (+ slot type 208, EMB 128, HRNP 911)",
-        "crc16_sweeps": ("weight <= 3 on 7 bases per kind; bursts <= 16 at every position on 2 bases per kind, <= 10 on the others"
-                         if thorough else "weight <= 2 on 3 bases per kind, bursts <= 9 (data headers) / <= 10 (PI header) at every position (longer bursts, up to 16, only in the thorough tier)"),
-        "crc9_sweeps": "weight <= %d and all bursts <= 9 on %d bases per kind" % (k, 5 if thorough else 3),
+        "encoded": "C03 field spaces of the 14 protected kinds (+ slot type 208, EMB 128, HRNP 911 + all 2^16 packet numbers)",
+        "crc16_sweeps": ("weight <= 3 on 7 bases per kind; bursts <= 16 at every position on 1 base per kind (single leading check bit set), <= 10 on the others"
+                         if thorough else "weight <= 2 on 2 bases per kind, bursts <= 9 (data headers) / <= 10 (PI header) at every position (longer bursts, up to 16, only in the thorough tier)"),
+        "crc9_sweeps": "weight <= %d and all bursts <= 9 on %d bases per kind" % (k, 5 if thorough else 2),
         "crc8_sweeps": "weight <= 3 and all bursts <= 8 on up to 7 bases per kind",
         "hrnp": "single-bit and single aligned word errors (159 xor patterns per word)",
         "not_covered": "error patterns of weight > 3 that are not short bursts; PDUs other than the fixed bases in the fault sweeps",
